@@ -68,6 +68,20 @@ type P11 struct {
 	Hi   int `json:"hi,omitempty"`
 }
 
+// P12 is strict by itself and has a nested struct: unknown keys are refused at every depth.
+type P12 struct {
+	N P1
+	K int
+}
+
+func (P12) DisallowUnknownFields() {}
+
+type P13 struct {
+	I int64
+	U uint64
+	F json.Number
+}
+
 type P10 struct {
 	R json.RawMessage
 	O Opt
@@ -109,6 +123,8 @@ func c15ArgTypes() []argType {
 	out = append(out, st("P9", P9{}, "A", "M")...)
 	out = append(out, st("P10", P10{}, "R", "O", "N")...)
 	out = append(out, st("P11", P11{}, "Lo", "-", "hi")...)
+	out = append(out, st("P12", P12{}, "N", "K")...)
+	out = append(out, st("P13", P13{}, "I", "U", "F")...)
 	out = append(out, argType{"**P1", reflect.PointerTo(reflect.PointerTo(reflect.TypeOf(P1{}))), nil})
 	return out
 }
@@ -235,7 +251,11 @@ func c15ParamsFor(at argType) []string {
 	ps := []string{"", "null", "{}", "[]", "[1]", `[1,"s"]`, `[1,"s",3]`, `["s",1]`, `[null,null]`, `[null]`, "5", `"s"`, "true",
 		`{"A":1,"B":"s"}`, `{"a":1,"b":"s"}`, `{"A":1,"Z":9}`, `{"A":"wrong"}`, `{"x":1,"y":"s"}`, `{"X":1}`, `{"C":3,"A":1}`, `{"in":{"A":1},"C":2}`,
 		`{"B":"s","a":5}`, `{"N":{"A":1,"B":"b"},"P":{"A":2},"L":[1,2]}`, `[{"A":1},null,[3]]`, `{"A":7,"M":{"k":1}}`, `[7,{"k":1}]`, `[1,2]`, `{"k":1}`, `[[1]]`, `{"Skip":1,"A":1}`,
-		`[null,null,1]`, `[{"k":1},5,1]`, `[1,2,3]`, `[7,9]`, `{"Lo":1,"-":2,"hi":3}`, `{"R":null,"O":null,"N":1}`, `[null,"s",1]`}
+		`[null,null,1]`, `[{"k":1},5,1]`, `[1,2,3]`, `[7,9]`, `{"Lo":1,"-":2,"hi":3}`, `{"R":null,"O":null,"N":1}`, `[null,"s",1]`,
+		// unknown keys below the top level, in both notations
+		`[{"A":1,"Zz":9},null,[3]]`, `{"N":{"A":1,"Zz":9}}`, `[{"A":1,"Zz":9},2]`, `{"N":{"A":1,"Zz":9},"K":2}`, `[{"A":1},2]`, `[7,{"k":1,"k2":2}]`,
+		// values whose spelling must survive the array translation
+		`[9007199254740993,"s"]`, `{"A":9007199254740993,"B":"s"}`, `[9007199254740993,18446744073709551615,1.10]`, `{"I":-9007199254740993,"U":18446744073709551615,"F":1e2}`, `[{"k":1.50,"a":[1e2]},5,1]`}
 	return ps
 }
 
